@@ -2,9 +2,33 @@
 from __future__ import annotations
 
 
+ODD_LABELS = [None, 0, "", (), frozenset(), -1, 0.5, (1, 2), ("a",), (None,), "None", 7, (0, "k"), frozenset([3]),
+              ((),), -2, 2.5, "0"]   # pairwise different as dict keys (no 0/False/0.0 or 1/True/1.0 clashes)
+
+
+def enc(x):
+    """JSON-able form of a node label (cases are written to replay files)"""
+    if isinstance(x, tuple):
+        return {"tuple": [enc(e) for e in x]}
+    if isinstance(x, frozenset):
+        return {"frozenset": sorted((enc(e) for e in x), key=repr)}
+    return x
+
+
+def dec(x):
+    """the node label itself (None, numbers, strings, tuples, frozensets)"""
+    if isinstance(x, dict):
+        (k, v), = x.items()
+        return tuple(dec(e) for e in v) if k == "tuple" else frozenset(dec(e) for e in v)
+    if isinstance(x, list):       # a tuple that went through JSON unencoded
+        return tuple(dec(e) for e in x)
+    return x
+
+
 def label_maker(rng, n):
-    """n distinct node labels: ints, shifted ints, strings or a mix (never 0/1 vs False/True clashes)."""
-    style = rng.choice(["int", "int", "shift", "str", "mixed", "word"])
+    """n distinct node labels in their JSON-able form (`dec` gives the label): ints, shifted ints, strings, a mix,
+    or odd hashables (None, 0, '', (), frozenset(), -1, 0.5, tuples ...); never 0/1 vs False/True clashes."""
+    style = rng.choice(["int", "int", "shift", "str", "mixed", "word", "odd"])
     if style == "int":
         labs = list(range(n))
     elif style == "shift":
@@ -16,19 +40,26 @@ def label_maker(rng, n):
         words = ["s", "t", "a", "b", "c", "d", "e", "f", "g", "h", "u", "v", "w", "x", "y", "z"]
         rng.shuffle(words)
         labs = words[:n] if n <= len(words) else [f"n{i}" for i in range(n)]
+    elif style == "odd":
+        pool = list(ODD_LABELS)
+        rng.shuffle(pool)
+        labs = pool[:n] + [f"x{i}" for i in range(max(0, n - len(pool)))]
     else:
         labs = [(f"k{i}" if rng.random() < 0.5 else i + 20) for i in range(n)]
+    if style not in ("odd",) and n and rng.random() < 0.08:     # None among ordinary labels
+        labs[rng.randrange(n)] = None
     if rng.random() < 0.5:
         rng.shuffle(labs)
-    return labs
+    return [enc(x) for x in labs]
 
 
 def graph_dict(case_graph):
     """ordered [[u, [[v, cap, ...], ...]], ...] -> dict preserving order (tuples as the API documents)."""
     g = {}
     for u, lst in case_graph:
+        u = dec(u)
         g.setdefault(u, [])
-        g[u].extend(tuple(a) for a in lst)
+        g[u].extend((dec(a[0]),) + tuple(a[1:]) for a in lst)
     return g
 
 
@@ -36,11 +67,11 @@ def index_map(case_graph, extra=()):
     """labels in order of first appearance -> index"""
     idx = {}
     for x in extra:
-        idx.setdefault(x, len(idx))
+        idx.setdefault(dec(x), len(idx))
     for u, lst in case_graph:
-        idx.setdefault(u, len(idx))
+        idx.setdefault(dec(u), len(idx))
         for a in lst:
-            idx.setdefault(a[0], len(idx))
+            idx.setdefault(dec(a[0]), len(idx))
     return idx
 
 
